@@ -252,7 +252,7 @@ def body_svd(case):
             'svd_shape', 'orders %d/%d, ranks %s / %s for %d singular values' % (u.order, v.order, u.ranks, v.ranks, k))
     require(u.row_dims == rows[:idx] and v.row_dims == rows[idx:], 'svd_shape', 'dims of u/v')
     if not case['overwrite']:
-        build.require_unchanged(t, before, 'input of svd(overwrite=False)')
+        build.require_unchanged(t, before, 'input of svd(overwrite=False)', strict=True)
     U = dense.contract(u.cores, keep_bounds=True).reshape(-1, k)
     V = dense.contract(v.cores, keep_bounds=True).reshape(k, -1)
     close(U.conj().T @ U, np.eye(k), 1e-10, 1.0, 'u_orthonormal', 'columns of u')
@@ -282,7 +282,7 @@ def body_svd(case):
         require_consistent(p, 'pinv_consistent')
         require(p.row_dims == rows and p.order == d, 'pinv_shape', 'dims of pinv')
         if not case['overwrite']:
-            build.require_unchanged(t2, before2, 'input of pinv(overwrite=False)')
+            build.require_unchanged(t2, before2, 'input of pinv(overwrite=False)', strict=True)
         kp = kk if 'keep' in case else numrank
         if 'keep' in case or th != 0 or numrank == min(k, len(sig)):
             # (with threshold 0 and exact zeros among the returned singular values the reciprocal is meaningless; skipped)
